@@ -150,7 +150,9 @@ def run(ctx):
             # the same encoding moved into a helper that did not exist when the rules were written: to_hex(&hasher.finalize())
             hv = strip_refs(v)
             hk = hv[1] if is_call(hv) and hv[1] in ctx.inline_set else (mir.norm_path(hv[1]) if is_call(hv) and mir.norm_path(hv[1]) in ctx.inline_set else None)
-            if hk is not None and len(call_args(hv)) == 1 and is_call(content(call_args(hv)[0]), "::finalize"):
+            takes_hasher = hk is not None and len(call_args(hv)) == 1 and isinstance(strip_refs(call_args(hv)[0]), tuple) and strip_refs(call_args(hv)[0])[0] in ("havoc", "mutated", "loc") \
+                and any(ev_is(e_, "Digest::finalize") and strip_refs(e_.args[0]) == ("param", 1) for q_ in (ctx.paths(hk) or []) for e_ in q_.events)
+            if hk is not None and len(call_args(hv)) == 1 and (is_call(content(call_args(hv)[0]), "::finalize") or takes_hasher):
                 okh, why = hex_helper(ctx, fx, hk, sp["hex_template"])
                 ctx.check(okh, "D4-HEX", fn, "ok-path-%d" % i, "Ok(%s(finalize())) where the helper appends {:02x} of every byte in order" % hk.split("::")[-1],
                           "the result is %s(finalize()) but %s" % (hk, why), fn_span(body))
@@ -206,21 +208,65 @@ def hex_helper(ctx, fx, hk, template):
     if hb is None or not hps:
         return False, "its body is not available"
     tmpl = [fmt_template(s_) for s_ in fmt_sites_in(fx, hb)]
-    if tmpl != [template]:
+    nibbles = tmpl == []
+    if not nibbles and tmpl != [template]:
         return False, "it formats with %s, expected exactly [%r] (two lower-case hex digits per byte)" % (tmpl, template)
     if len(hb.loops) != 1:
         return False, "it has %d loops, expected one over the bytes" % len(hb.loops)
     h = next(iter(hb.loops))
     drv = [c for p in hps for c in p.conds() if c.term[0] == "discr" and is_call(strip_refs(c.term[1]), "::next") and strip_refs(c.term[1])[4] == h]
     from lib import _iter_source
-    if not drv or "slice::Iter" not in strip_refs(drv[0].term[1])[1] or _iter_source(call_args(strip_refs(drv[0].term[1]))[0]) != ("param", 1):
+    src = _iter_source(call_args(strip_refs(drv[0].term[1]))[0]) if drv else None
+    # the bytes it is given, or the output of finalize() of the hasher it is given
+    src_ok = src == ("param", 1) or (is_call(src, "::finalize") and strip_refs(call_args(src)[0]) == ("param", 1))
+    if not drv or "slice::Iter" not in strip_refs(drv[0].term[1])[1] or not src_ok:
         return False, "its loop is not a forward iteration over the slice it is given"
-    wf = [e for p in hps for e in p.events if e.kind == "call" and fmt_site_for_call(fx, hb, e.bb) is not None and e.bb in hb.loops[h]]
+    if nibbles:
+        # the same two lower-case hex digits per byte taken from a digit table: push(TABLE[b >> 4]); push(TABLE[b & 15]) with TABLE = "0123456789abcdef"
+        nx = strip_refs(drv[0].term[1])
+        elem = ("field", ("downcast", nx, "Some"), 0, "0")
+
+        def digit(t, how):
+            t = strip_refs(t)
+            for _ in range(3):
+                if is_call(t, "From for char>::from", "char::from", "::from") and len(call_args(t)) == 1:
+                    t = strip_refs(call_args(t)[0])
+                elif isinstance(t, tuple) and t and t[0] == "cast":
+                    t = strip_refs(t[-1])
+            if not (isinstance(t, tuple) and t and t[0] == "index"):
+                return False
+            tb = t[1]
+            while isinstance(tb, tuple) and tb and tb[0] in ("deref", "ref"):
+                tb = tb[1]
+            if const_bytes(tb) != "0123456789abcdef" and const_str(tb) != "0123456789abcdef":
+                return False
+            ix = strip_refs(t[2])
+            for _ in range(3):
+                if is_call(ix, "for usize>::from", "usize::from", "::from") and len(call_args(ix)) == 1:
+                    ix = strip_refs(call_args(ix)[0])
+                elif isinstance(ix, tuple) and ix and ix[0] == "cast":
+                    ix = strip_refs(ix[-1])
+            if not (isinstance(ix, tuple) and ix and ix[0] == "binop"):
+                return False
+            b = ix[2]
+            while isinstance(b, tuple) and b and b[0] in ("deref", "ref"):
+                b = b[1]
+            if b[:3] != elem[:3]:
+                return False
+            return (ix[1] == "Shr" and const_int(ix[3]) == 4) if how == "hi" else (ix[1] == "BitAnd" and const_int(ix[3]) == 15)
+        backs = [p for p in hps if p.end[0] == "back" and p.end[1] == h]
+        if not backs:
+            return False, "its loop has no iteration path"
+        for p in backs:
+            pu = [e for e in p.events if ev_is(e, "String::push") and e.bb in hb.loops[h]]
+            if not (len(pu) == 2 and digit(pu[0].args[1], "hi") and digit(pu[1].args[1], "lo")):
+                return False, "a byte is not appended as TABLE[b >> 4] followed by TABLE[b & 15] with TABLE = \"0123456789abcdef\""
+    wf = [] if nibbles else [e for p in hps for e in p.events if e.kind == "call" and fmt_site_for_call(fx, hb, e.bb) is not None and e.bb in hb.loops[h]]
     args = [a for e in wf for (_, a) in fmt_call_args(e.term if hasattr(e, "term") else None) or []]
     elem_ok = any(mentions(a, lambda s_: s_[0] == "downcast" and s_[2] == "Some" and is_call(strip_refs(s_[1]), "::next")) for e in wf for a in e.args) or \
         any(mentions(e2.args[-1] if e2.args else None, lambda s_: s_[0] == "downcast" and s_[2] == "Some" and is_call(strip_refs(s_[1]), "::next"))
             for p in hps for e2 in p.events if e2.kind == "call" and e2.bb in hb.loops[h] and ("Argument" in e2.path))
-    if not elem_ok:
+    if not elem_ok and not nibbles:
         return False, "the formatted value is not the byte the loop is looking at"
     rets = ret_paths(hps)
     locs = {p.end[1][1] for p in rets if isinstance(p.end[1], tuple) and p.end[1][0] in ("havoc", "mutated")}
